@@ -168,8 +168,7 @@ def evaluate(r, trains, edges, max_tau, mrts, be, rank=()):
 
 
 def check_state(r, k, masks, task):
-    trains = [lattice.times(m) for m in masks]
-    edges = lattice.edges(k)
+    trains, edges = pairs.trains_edges(k, masks)
     ns = pairs.nspikes(masks)
     for mi, (mt, m) in enumerate(task["menu"]):
         evaluate(r, trains, edges, mt, m, task["backend"], (k, ns, mi))
